@@ -239,7 +239,8 @@ fn run_check(id: &str, tier: &str) -> i32 {
     let workers: usize = std::env::var("VERIF_WORKERS").ok().and_then(|s| s.parse().ok()).unwrap_or(8);
     println!("wsim: property={} tier={} VERIF_SEED={} budget={}s workers={}", id, tier, base_seed, budget_s, workers);
     let deadline = t0 + Duration::from_secs(budget_s);
-    let next = AtomicU64::new(0);
+    let start_index: u64 = std::env::var("VERIF_START_INDEX").ok().and_then(|s| s.parse().ok()).unwrap_or(0);
+    let next = AtomicU64::new(start_index);
     let stop = AtomicBool::new(false);
     let agg = Mutex::new(Agg {
         executions: 0,
@@ -261,7 +262,7 @@ fn run_check(id: &str, tier: &str) -> i32 {
                     break;
                 }
                 let i = next.fetch_add(1, Ordering::SeqCst);
-                if i >= max_runs {
+                if i >= max_runs.saturating_add(start_index) {
                     break;
                 }
                 let seed_r = rng::mix(rng::mix(base_seed, idh), i);
